@@ -42,7 +42,7 @@ check(
 check(
     "C13",
     "other",
-    "bounded symbolic verification of the exit-status chain: the real Errors.format_messages_default, util.count_stats and the status expressions extracted from main.main and dmypy_server on every run are executed on symbolic diagnostics (bounded strings as bit-vector character arrays); obligation: status 0 iff no error-severity diagnostic, 2 iff blockers. (K1) ignore / error-code exactness: the real Errors.add_error_info/is_ignored_error/is_error_code_enabled/generate_unused_ignore_errors and the gate State.generate_unused_ignore_notes driven through the Errors API with solver-chosen errors (line, code, sub-code, blocker), ignore comments (bare, coded, parent codes, several codes, unused-ignore), code states and --warn-unused-ignores; an error is shown iff blocker or enabled and unmatched, unused-ignore appears iff switched on and the comment (or a listed code) suppressed nothing; (K1b) every (error code, ignore code) pair of the real code table; (K1c) the scope of an ignore comment at the top of a module in fastparse (first statement kind, decorators, comment position solver-chosen). (K1d) enabling/disabling codes: every real error code and (sub-code, parent) pair x global and per-module none/enable/disable/both through the real process_error_codes / apply_changes / is_error_code_enabled against the documented rules. (K3) sort_messages / sort_within_context / remove_duplicates on 3/4 records with symbolic line, column, priority, message and code: exact removal, notes follow their parents, order.",
+    "bounded symbolic verification of the exit-status chain: the real Errors.format_messages_default, util.count_stats and the status expressions extracted from main.main and dmypy_server on every run are executed on symbolic diagnostics (bounded strings as bit-vector character arrays); obligation: status 0 iff no error-severity diagnostic, 2 iff blockers. (K1) ignore / error-code exactness: the real Errors.add_error_info/is_ignored_error/is_error_code_enabled/generate_unused_ignore_errors and the gate State.generate_unused_ignore_notes driven through the Errors API with solver-chosen errors (line, code, sub-code, blocker), ignore comments (bare, coded, parent codes, several codes, unused-ignore), code states and --warn-unused-ignores; an error is shown iff blocker or enabled and unmatched, unused-ignore appears iff switched on and the comment (or a listed code) suppressed nothing; (K1b) every (error code, ignore code) pair of the real code table; (K1c) the scope of an ignore comment at the top of a module in fastparse (first statement kind, decorators, comment position solver-chosen). (K1d) enabling/disabling codes: every real error code and (sub-code, parent) pair x global and per-module none/enable/disable/both through the real process_error_codes / apply_changes / is_error_code_enabled against the documented rules. (K1e) ignore-without-code generation and its gate on two lines (comment kind, errors present, skipped line, code enabled, warn-unused-ignores, whole-file ignore solver-chosen). (K3) sort_messages / sort_within_context / remove_duplicates on 3/4 records with symbolic line, column, priority, message and code: exact removal, notes follow their parents, order.",
     "trusted: z3; file names contain no ':'; --pretty source lines outside the bound; message text printable ASCII up to the stated length",
     "symbolic execution of real Python source with z3 over bounded bit-vector strings",
     "DESIGN.md 4/C13",
